@@ -65,6 +65,10 @@ theorem violation_cursorWrite (st : St) (s : Side) (c : Nat) :
     violation st (.cursorWrite s c) = none ↔ ((st.side s).walked = true → (st.side s).covered c = true) := by
   cases h1 : (st.side s).walked <;> cases h2 : (st.side s).covered c <;> simp [violation, h1, h2]
 
+theorem violation_eventApplied (st : St) (s : Side) (i eid : Nat) :
+    violation st (.eventApplied s i (some eid)) = none ↔ st.hasRow eid = true := by
+  cases h1 : st.hasRow eid <;> simp [violation, h1]
+
 theorem step_ok_iff (st st' : St) (e : Eff) : step st e = .ok st' ↔ violation st e = none ∧ st' = effect st e := by
   unfold step
   cases h : violation st e with
@@ -146,7 +150,7 @@ theorem effect_puts_mono (st : St) (e : Eff) (s : Side) (t : Nat) (h : t ∈ (st
     by_cases hs : s = s'
     · subst hs; simp [effect, h]
     · simpa [effect, side_setSide_ne _ _ _ _ hs] using h
-  | eventApplied s' i =>
+  | eventApplied s' i row =>
     by_cases hs : s = s'
     · subst hs; simpa [effect] using h
     · simpa [effect, side_setSide_ne _ _ _ _ hs] using h
